@@ -709,3 +709,158 @@ Example flatten1_empty_child_lost :
   match flatten1 (TNode [(VInt 0, TNode [(VInt 1, ex_leaf 1)]); (VInt 2, TNode [])]) with
   | Some t' => unflatten1 t' | None => None end = Some (TNode [(VInt 0, TNode [(VInt 1, ex_leaf 1)])]).
 Proof. vm_compute. reflexivity. Qed.
+
+(* ------------------------------------------------------------ splitNonUniform *)
+Definition hd_opt (zs : list Z) : option Z := match zs with b :: _ => Some b | [] => None end.
+
+(* partition [lo, hi) (hi = None: unbounded above) *)
+Definition sb_sel (lo : Z) (hi : option Z) (l : list (value * trie)) : list (value * trie) :=
+  filter (fun ct => (lo <=? kz ct) && match hi with Some h => kz ct <? h | None => true end) l.
+
+Fixpoint sbz (zs : list Z) (l : list (value * trie)) : list (value * trie) :=
+  match zs with
+  | [] => []
+  | b :: zs' => match sb_sel b (hd_opt zs') l with
+                | [] => sbz zs' l
+                | sel => (VInt b, TNode sel) :: sbz zs' l
+                end
+  end.
+
+Lemma split_bounds_eq zs l : Forall int_key l -> split_bounds (map VInt zs) l = sbz zs l.
+Proof.
+  intros Hk. induction zs as [|b zs IH]; [reflexivity|]. cbn [map split_bounds sbz]. rewrite IH.
+  assert (E : filter (fun ct : value * trie => vleb (VInt b) (fst ct) &&
+                match match map VInt zs with b' :: _ => Some b' | [] => None end with Some h => vltb (fst ct) h | None => true end) l
+              = sb_sel b (hd_opt zs) l).
+  { unfold sb_sel. apply filter_ext_in. intros ct Hct. rewrite Forall_forall in Hk. destruct (Hk _ Hct) as [z Hz].
+    unfold kz. rewrite Hz, vleb_int. destruct zs as [|b' zs]; cbn [map hd_opt]; [reflexivity|]. rewrite vltb_int. reflexivity. }
+  rewrite E. destruct (sb_sel b (hd_opt zs) l); reflexivity.
+Qed.
+
+Lemma sbz_lowers b zs l : concat (lowers (sbz (b :: zs) l)) = sb_sel b (hd_opt zs) l ++ concat (lowers (sbz zs l)).
+Proof. cbn [sbz]. destruct (sb_sel b (hd_opt zs) l) eqn:E; [reflexivity|]. cbn [lowers map concat snd tchildren]. reflexivity. Qed.
+
+Lemma sbz_restrict m zs l : Forall (fun b => m <= b) zs -> sbz zs (filter (fun ct => m <=? kz ct) l) = sbz zs l.
+Proof.
+  induction 1 as [|b zs Hb Hf IH]; [reflexivity|]. cbn [sbz]. rewrite IH.
+  assert (E : sb_sel b (hd_opt zs) (filter (fun ct => m <=? kz ct) l) = sb_sel b (hd_opt zs) l).
+  { unfold sb_sel. apply filter_filter_eq. intros a _ Ha. lia. }
+  rewrite E. reflexivity.
+Qed.
+
+Lemma split_threshold h (l : list (value * trie)) : StronglySorted (fun a b => kz a < kz b) l ->
+  l = filter (fun ct => kz ct <? h) l ++ filter (fun ct => h <=? kz ct) l.
+Proof.
+  intros Hs. pose proof (split_class (fun ct : value * trie => if kz ct <? h then 0 else 1) 0 l) as H.
+  rewrite H at 1.
+  - f_equal; apply filter_ext; intros ct; destruct (Z.ltb_spec (kz ct) h); destruct (Z.leb_spec h (kz ct)); try reflexivity; lia.
+  - eapply SS_impl; [|exact Hs]. cbn beta. intros a b Hab. destruct (Z.ltb_spec (kz a) h); destruct (Z.ltb_spec (kz b) h); lia.
+  - intros a _. destruct (kz a <? h); lia.
+Qed.
+
+Lemma sbz_concat zs : StronglySorted Z.lt zs -> forall l, StronglySorted (fun a b => kz a < kz b) l ->
+  match zs with b0 :: _ => forall ct, In ct l -> b0 <= kz ct | [] => l = [] end ->
+  concat (lowers (sbz zs l)) = l.
+Proof.
+  induction 1 as [|b zs Hs IH Hf]; intros l Hl Hlo; [subst l; reflexivity|].
+  rewrite sbz_lowers. destruct zs as [|b' zs].
+  - cbn [sbz lowers map concat hd_opt]. rewrite app_nil_r. unfold sb_sel.
+    clear - Hlo. induction l as [|ct l IHl]; [reflexivity|]. cbn [filter].
+    pose proof (Hlo ct (or_introl eq_refl)). destruct (Z.leb_spec b (kz ct)); [|lia]. cbn [andb]. f_equal.
+    apply IHl. intros x Hx. apply Hlo. right. exact Hx.
+  - cbn [hd_opt]. inversion Hf as [|? ? Hbb' _]; subst.
+    rewrite <- (sbz_restrict b' (b' :: zs) l).
+    + rewrite IH.
+      * rewrite (split_threshold b' l Hl) at 3. f_equal. unfold sb_sel. apply filter_ext_in. intros ct Hct.
+        specialize (Hlo ct Hct). destruct (Z.leb_spec b (kz ct)); [reflexivity|lia].
+      * apply SS_filter. exact Hl.
+      * intros ct Hct. apply filter_In in Hct. lia.
+    + constructor; [lia|]. inversion Hs as [|? ? _ Hf']; subst. revert Hf'. apply Forall_impl. intros x Hx. lia.
+Qed.
+
+Lemma sorted_decomp_unique zs : StronglySorted Z.lt zs -> forall pre b post pre' post',
+  zs = pre ++ b :: post -> zs = pre' ++ b :: post' -> pre = pre' /\ post = post'.
+Proof.
+  induction 1 as [|x zs Hs IH Hf]; intros pre b post pre' post' E E'; [destruct pre; discriminate|].
+  rewrite Forall_forall in Hf.
+  destruct pre as [|p pre]; destruct pre' as [|p' pre']; cbn [app] in E, E'; injection E as E1 E2; injection E' as E1' E2'.
+  - split; congruence.
+  - exfalso. assert (In b zs) by (rewrite E2'; apply in_or_app; right; left; reflexivity). specialize (Hf b H). lia.
+  - exfalso. assert (In b zs) by (rewrite E2; apply in_or_app; right; left; reflexivity). specialize (Hf b H). lia.
+  - destruct (IH pre b post pre' post' E2 E2') as [-> ->]. split; congruence.
+Qed.
+
+Lemma sbz_spec zs l :
+  Forall (fun pt => exists pre b post, zs = pre ++ b :: post /\ pt = (VInt b, TNode (sb_sel b (hd_opt post) l)) /\
+                                       sb_sel b (hd_opt post) l <> []) (sbz zs l).
+Proof.
+  induction zs as [|b zs IH]; [constructor|]. cbn [sbz].
+  assert (IH' : Forall (fun pt => exists pre b0 post, b :: zs = pre ++ b0 :: post /\ pt = (VInt b0, TNode (sb_sel b0 (hd_opt post) l)) /\
+                                                       sb_sel b0 (hd_opt post) l <> []) (sbz zs l)).
+  { revert IH. apply Forall_impl. intros pt [pre [b0 [post [E H]]]]. exists (b :: pre), b0, post. rewrite E. split; [reflexivity|exact H]. }
+  destruct (sb_sel b (hd_opt zs) l) eqn:E; [exact IH'|]. constructor; [|exact IH'].
+  exists [], b, zs. rewrite E. split; [reflexivity|]. split; [reflexivity|discriminate].
+Qed.
+
+Lemma sbz_sorted zs l : StronglySorted Z.lt zs -> int_sorted (sbz zs l).
+Proof.
+  induction 1 as [|b zs Hs IH Hf]; [apply int_sorted_nil|]. cbn [sbz].
+  destruct (sb_sel b (hd_opt zs) l) eqn:E; [exact IH|]. destruct IH as [IH1 IH2]. split.
+  - constructor; [exists b; reflexivity|exact IH1].
+  - constructor; [exact IH2|]. pose proof (sbz_spec zs l) as Hsp. rewrite Forall_forall in *. intros pt Hpt.
+    destruct (Hsp _ Hpt) as [pre [b0 [post [E0 [-> _]]]]]. unfold kz. cbn [fst]. apply Hf. rewrite E0. apply in_or_app. right. left. reflexivity.
+Qed.
+
+(* (e) splitNonUniform(boundaries) cuts a sorted integer fiber into consecutive non-empty pieces, one per
+   boundary interval [b_j, b_j+1) that holds an element, and mergeRanks undoes it.  Hypotheses: boundaries
+   integer and strictly increasing, the first boundary <= every coordinate (otherwise elements are dropped). *)
+Theorem split_nonuniform_partition zs l : StronglySorted Z.lt zs -> int_sorted l ->
+  match zs with b0 :: _ => forall ct, In ct l -> b0 <= kz ct | [] => l = [] end ->
+  exists parts, split_nonuniform (map VInt zs) (TNode l) = Some (TNode parts) /\
+    concat (lowers parts) = l /\
+    int_sorted parts /\
+    Forall (fun pt => exists b sel, pt = (VInt b, TNode sel) /\ sel <> [] /\ In b zs /\
+                                    forall ct, In ct sel <-> In ct l /\ in_part zs b (kz ct)) parts /\
+    (forall ct, In ct l -> exists b sel, In (VInt b, TNode sel) parts /\ In ct sel /\ part_of zs (kz ct) = Some b).
+Proof.
+  intros Hzs [Hk Hl] Hlo. exists (sbz zs l). unfold split_nonuniform. rewrite split_bounds_eq by exact Hk.
+  split; [reflexivity|]. pose proof (sbz_concat zs Hzs l Hl Hlo) as Hc. split; [exact Hc|]. split; [apply sbz_sorted; exact Hzs|].
+  assert (Hsp : Forall (fun pt => exists b sel, pt = (VInt b, TNode sel) /\ sel <> [] /\ In b zs /\
+                                    forall ct, In ct sel <-> In ct l /\ in_part zs b (kz ct)) (sbz zs l)).
+  { pose proof (sbz_spec zs l) as Hsp. revert Hsp. apply Forall_impl. intros pt [pre [b [post [E [-> Hne]]]]].
+    exists b, (sb_sel b (hd_opt post) l). split; [reflexivity|]. split; [exact Hne|]. split; [rewrite E; apply in_or_app; right; left; reflexivity|].
+    intros ct. unfold sb_sel. rewrite filter_In. split.
+    - intros [H1 H2]. split; [exact H1|]. exists pre, post. split; [exact E|]. destruct post; cbn [hd_opt] in H2; lia.
+    - intros [H1 [pre' [post' [E' [H2 H3]]]]]. split; [exact H1|].
+      destruct (sorted_decomp_unique zs Hzs pre b post pre' post' E E') as [_ <-]. destruct post; cbn [hd_opt]; lia. }
+  split; [exact Hsp|]. intros ct Hct. rewrite <- Hc in Hct. apply in_concat in Hct. destruct Hct as [lx [H1 H2]].
+  unfold lowers in H1. apply in_map_iff in H1. destruct H1 as [pt [<- Hpt]]. rewrite Forall_forall in Hsp.
+  destruct (Hsp _ Hpt) as [b [sel [-> [_ [_ Hin]]]]]. cbn [snd tchildren] in H2. exists b, sel. split; [exact Hpt|]. split; [exact H2|].
+  apply Hin in H2. destruct H2 as [_ H2]. apply (follow_exactly_one zs (kz ct) Hzs). exact H2.
+Qed.
+
+Theorem split_nonuniform_merge1 zs l : StronglySorted Z.lt zs -> int_sorted l ->
+  match zs with b0 :: _ => forall ct, In ct l -> b0 <= kz ct | [] => l = [] end ->
+  exists t', split_nonuniform (map VInt zs) (TNode l) = Some t' /\ merge1 t' = Some (TNode l).
+Proof.
+  intros Hzs Hl Hlo. destruct (split_nonuniform_partition zs l Hzs Hl Hlo) as [parts [E [Hc [_ [Hp _]]]]].
+  exists (TNode parts). split; [exact E|]. rewrite merge1_concat; [rewrite Hc; reflexivity| |rewrite Hc; exact Hl].
+  revert Hp. apply Forall_impl. intros pt [b [sel [-> _]]]. exists sel. reflexivity.
+Qed.
+
+Example split_nonuniform_merge1_ex :
+  split_nonuniform (map VInt [0; 2; 3; 10]) (TNode ex_fiber) =
+    Some (TNode [(VInt 0, TNode [(VInt 0, ex_leaf 10); (VInt 1, ex_leaf 11)]);
+                 (VInt 3, TNode [(VInt 3, ex_leaf 13); (VInt 4, ex_leaf 14); (VInt 7, ex_leaf 17)]);
+                 (VInt 10, TNode [(VInt 12, ex_leaf 22)])]) /\
+  exists t', split_nonuniform (map VInt [0; 2; 3; 10]) (TNode ex_fiber) = Some t' /\ merge1 t' = Some (TNode ex_fiber).
+Proof.
+  split; [vm_compute; reflexivity|]. apply split_nonuniform_merge1; [repeat constructor; lia|exact ex_fiber_sorted|].
+  intros ct Hct. pose proof ex_fiber_nonneg as H. unfold nonneg_keys in H. rewrite Forall_forall in H. apply H. exact Hct.
+Qed.
+
+(* the hypothesis "first boundary <= every coordinate" is necessary: elements below it are dropped *)
+Example split_nonuniform_below_lost :
+  split_nonuniform (map VInt [1; 3]) (TNode [(VInt 0, ex_leaf 10); (VInt 1, ex_leaf 11); (VInt 4, ex_leaf 14)]) =
+    Some (TNode [(VInt 1, TNode [(VInt 1, ex_leaf 11)]); (VInt 3, TNode [(VInt 4, ex_leaf 14)])]).
+Proof. vm_compute. reflexivity. Qed.
